@@ -72,9 +72,19 @@ def build_ordered(d):
     comps = d["comps"]
     models = [netlib.comp_model(c) for c in comps]
     sts = {}
+    # some components are placed SUB-SOLVERS (the component inside, its pins exposed under their own names but declared
+    # in reverse order, so that the solved port order differs from the declaration order)
+    placed = {}
+    for i, c in enumerate(comps):
+        if c.get("n", 0) >= 2 and (i + len(comps)) % 3 == 0:
+            with netlib.lk.Solver(name=f"W{i}") as sub:
+                inner = models[i].put()
+                for k in reversed(range(c["n"])):
+                    netlib.lk.Pin(f"p{k}").put(inner.pin[f"p{k}"])
+            placed[i] = sub
     with netlib.lk.Solver(name="orig") as sol:
         for i in d["order"]:
-            sts[i] = models[i].put()
+            sts[i] = placed[i].put() if i in placed else models[i].put()
         for a, b in d["conns"]:
             netlib.lk.connect(sts[a[0]].pin[f"p{a[1]}"], sts[b[0]].pin[f"p{b[1]}"])
         for c, k, name in d["expo"]:
